@@ -9,6 +9,8 @@ import (
 	"time"
 
 	simdjson "github.com/minio/simdjson-go"
+
+	"verif/ref"
 )
 
 var mutationSeeds = []string{
@@ -422,6 +424,11 @@ func c05Body(w *W) {
 	w.Sample(fmt.Sprintf("mutation sample: %q with byte 17 replaced by 0x00..0xff", mutationSeeds[0]))
 }
 
+func refValid(in []byte) bool {
+	_, verdict := ref.Parse(in)
+	return verdict == ref.Valid
+}
+
 const c05SeqSep = "\n----then, on the same reused parser state----\n"
 
 func c05Replay(v *Violation) string {
@@ -432,8 +439,16 @@ func c05Replay(v *Violation) string {
 		s.parse(cfg, []byte("[1]"), false)
 		_, err0, p0 := s.parse(cfg, parts[0], false)
 		pj, err, p := s.parse(cfg, parts[1], false)
-		if p != "" || err != nil {
+		if p != "" {
 			return fmt.Sprintf("FAIL first input: err=%v panic=%q; second input on the same parser state: err=%v panic=%q", err0, p0, err, p)
+		}
+		if err != nil {
+			// a rejection is a fine answer for an arbitrary second input; the poison sequences
+			// (second input valid) are judged by the check itself, not by this replay
+			if len(parts[1]) < 1<<16 && refValid(parts[1]) {
+				return fmt.Sprintf("FAIL a valid second input was rejected on the same parser state: %v (first input: err=%v)", err, err0)
+			}
+			return "OK second input rejected"
 		}
 		if what := traverseAll(pj); what != "" {
 			return "FAIL second input: " + what
